@@ -163,7 +163,7 @@ Qed.
 Definition region_done (c : lcd_cfg) (d : doc) (inits : smap) (r r2 : elem) (wm nda : Z) : Prop :=
   exists st, region_layout c d inits (e_styles (eattrs (style_elem c (anim_elem r)))) = Ok (st, wm, nda) /\
              r2 = Elem (with_styles (eattrs (style_elem c (anim_elem r))) st) (echildren (style_elem c (anim_elem r))).
-Definition region_fp (r : elem) (wm nda : Z) : fp := (or0 (e_begin (eattrs r)), or_none (e_end (eattrs r)), wm, nda).
+Definition region_fp (r : elem) (wm nda : Z) : fp := (or0 (e_begin (eattrs r)), e_end (eattrs r), wm, nda).
 
 Lemma eattrs_clean c r : eattrs (style_elem c (anim_elem r)) = style_attrs c (anim_attrs (eattrs r)).
 Proof. destruct r as [a cs]. reflexivity. Qed.
@@ -186,7 +186,7 @@ Proof.
   induction rs as [|r rs IH]; intros ret out H; cbn [lcd_regions] in H.
   - inversion H. constructor.
   - destruct (region_layout c d inits (e_styles (eattrs (style_elem c (anim_elem r))))) as [[[st wm] nda]|] eqn:El; cbn [bind] in H; [|discriminate].
-    assert (region_fp r wm nda = (or0 (e_begin (eattrs (style_elem c (anim_elem r)))), or_none (e_end (eattrs (style_elem c (anim_elem r)))), wm, nda)) as Ef
+    assert (region_fp r wm nda = (or0 (e_begin (eattrs (style_elem c (anim_elem r)))), e_end (eattrs (style_elem c (anim_elem r))), wm, nda)) as Ef
       by (rewrite eattrs_clean; reflexivity).
     assert (rid (eattrs (style_elem c (anim_elem r))) = rid (eattrs r)) as Er by (rewrite eattrs_clean; reflexivity).
     rewrite <- Ef, Er in H.
@@ -197,27 +197,19 @@ Proof.
       eapply loop_keep; [exists st; split; [exact El | reflexivity] | exact Elk | apply IH; exact Eo].
 Qed.
 
-(* the document assembled by lcd, with every intermediate value named *)
+(* the document assembled by lcd *)
+Definition body_pipeline (c : lcd_cfg) (al : list (text * text)) (body0 : option elem) : option elem :=
+  let body := option_map (clear_elem (map fst al)) (option_map (redirect_elem al) (option_map (fun b => anim_elem (style_elem c b)) body0)) in
+  let body := match c_bg c with Some col => option_map (apply_bg col) body | None => body end in
+  let body := match c_color c with Some col => option_map (set_root_style p_Color (VColor col)) body | None => body end in
+  if c_pta c then body else option_map (set_root_style p_TextAlign (VEnum e_TextAlignType_center)) body.
 Lemma lcd_ok_inv c d d' : lcd c d = Ok d' ->
-  exists out body4,
+  exists out,
     lcd_regions c d (keep_styles c (d_initials d)) (d_regions d) [] = Ok out /\
-    (match c_bg c with
-     | None => Ok (option_map (clear_elem (map fst (replaced_of out)))
-                    (option_map (redirect_elem (replaced_of out)) (option_map (fun b => anim_elem (style_elem c b)) (d_body d))))
-     | Some col => match option_map (clear_elem (map fst (replaced_of out)))
-                           (option_map (redirect_elem (replaced_of out)) (option_map (fun b => anim_elem (style_elem c b)) (d_body d))) with
-                   | None => Err errNoBody
-                   | Some b => Ok (Some (apply_bg col b))
-                   end
-     end) = Ok body4 /\
-    d' = mkDoc (retained_of out)
-               (let body := match c_color c with Some col => option_map (set_root_style p_Color (VColor col)) body4 | None => body4 end in
-                if c_pta c then body else option_map (set_root_style p_TextAlign (VEnum e_TextAlignType_center)) body)
+    d' = mkDoc (retained_of out) (body_pipeline c (replaced_of out) (d_body d))
                (keep_styles c (d_initials d)) (d_rows d) (d_cols d) (d_pxh d) (d_pxw d) (d_active d) (d_dar d) (d_lang d).
 Proof.
   unfold lcd. intros H.
   destruct (lcd_regions c d (keep_styles c (d_initials d)) (d_regions d) []) as [out|] eqn:Eo; cbn [bind] in H; [|discriminate].
-  exists out.
-  match type of H with bind ?X _ = _ => destruct X as [body4|] eqn:Eb end; cbn [bind] in H; [|discriminate].
-  exists body4. split; [reflexivity|]. split; [reflexivity|]. inversion H. reflexivity.
+  exists out. split; [reflexivity|]. inversion H. reflexivity.
 Qed.
